@@ -10,13 +10,15 @@ Definition set_follower (n : node) (id : nid) (f : fstate) : node :=
 
 Definition new_round (n : node) (stamp : N) : node * N :=
   let id := n_next_round n in
-  (n <| n_rounds ::= fun l => l ++ [{| r_id := id; r_count := 1; r_stamp := stamp |}] |> <| n_next_round := id + 1 |>, id).
+  (n <| n_rounds ::= fun l => l ++ [{| r_id := id; r_count := 1; r_stamp := stamp; r_term := n_term n |}] |> <| n_next_round := id + 1 |>, id).
 Definition round_count (n : node) (id : N) : N :=
   match find (fun r => r_id r =? id) (n_rounds n) with Some r => r_count r | None => 0 end.
+Definition round_term (n : node) (id : N) : N :=
+  match find (fun r => r_id r =? id) (n_rounds n) with Some r => r_term r | None => 0 end.
 Definition round_stamp (n : node) (id : N) : N :=
   match find (fun r => r_id r =? id) (n_rounds n) with Some r => r_stamp r | None => 0 end.
 Definition bump_round (n : node) (id : N) : node :=
-  n <| n_rounds ::= map (fun r => if r_id r =? id then {| r_id := id; r_count := r_count r + 1; r_stamp := r_stamp r |} else r) |>.
+  n <| n_rounds ::= map (fun r => if r_id r =? id then {| r_id := id; r_count := r_count r + 1; r_stamp := r_stamp r; r_term := r_term r |} else r) |>.
 
 (* tryApplyReadOnlyOperations(round): fix D4 - only reads submitted before the round was started are verified *)
 Definition try_apply_ro (now : N) (n : node) (stamp : N) : node :=
@@ -66,8 +68,10 @@ Definition l_election (now : N) (n : node) : node :=
   send_rv_to_peers now n2.
 
 (* sendRequestVote up to the RPC: None = returned without sending *)
-Definition l_rv_send (n : node) (peer : nid) (prevote : bool) : option rv_req :=
+Definition l_rv_send (n : node) (rid : N) (peer : nid) (prevote : bool) : option rv_req :=
   let c := conf_of n in
+  (* fix: D3 - the goroutine gives up if the term changed since its election started *)
+  if negb (n_term n =? round_term n rid) then None else
   if negb (is_voter c peer) || negb (is_voter c (n_id n)) then None else
   Some {| rv_cand := n_id n; rv_term := if prevote then n_term n + 1 else n_term n;
           rv_last_index := last_index (n_log n); rv_last_term := last_term (n_log n); rv_prevote := prevote |}.
@@ -363,7 +367,7 @@ Definition crash (n : node) : node :=
     <| n_pending := [] |> <| n_ro := [] |> <| n_should_verify := true |> <| n_cfg_fid := None |> <| n_lease := 0 |> <| n_contact := 0 |>
     <| n_rounds := [] |> <| n_tasks := [] |> <| n_cv := conds0 |> <| n_iswait := [] |> <| n_fsm := [] |>
     <| n_partial := None |> <| n_budget := None |> <| n_frozen := false |> <| n_applies := [] |>
-    <| n_term := 0 |> <| n_vote := None |>.
+    <| n_term := n_pterm n |> <| n_vote := n_pvote n |>.   (* what restore() will read back *)
 
 (* start(restore=false) on a node created by NewRaft (which has run restore()) *)
 Definition api_start (now : N) (n : node) : node :=
